@@ -13,12 +13,12 @@ fn parse_fields(dbg: &str) -> (Vec<usize>, Vec<usize>) {
     (grab("p: ["), grab("sz: ["))
 }
 
-fn run_ops(n: usize, ops: &[(char, usize, usize)]) -> Option<(String, String)> {
+fn run_ops(n: usize, ops: &[(char, usize, usize)], every_step: bool) -> Option<(String, String)> {
     let r = guarded(|| {
         let mut d = DSU::new(n);
         let mut comp: Vec<usize> = (0..n).collect();
         let mut cur_n = n;
-        for &(op, a, b) in ops {
+        for (oi, &(op, a, b)) in ops.iter().enumerate() {
             match op {
                 'u' => {
                     let want = comp[a] != comp[b];
@@ -42,7 +42,12 @@ fn run_ops(n: usize, ops: &[(char, usize, usize)]) -> Option<(String, String)> {
                 }
                 _ => {}
             }
-            for x in 0..cur_n {
+            // lookups compress paths: observing after every step would never let the forest grow deep, so there is a mode
+            // that only observes after the last operation (sizes first, from the highest index down)
+            if !every_step && oi + 1 < ops.len() {
+                continue;
+            }
+            for x in (0..cur_n).rev() {
                 let sz = comp.iter().filter(|&&c| c == comp[x]).count();
                 if d.size(x) != sz {
                     return Some((format!("size({}) = {}", x, d.size(x)), format!("{}", sz)));
@@ -112,7 +117,7 @@ pub fn run(seed: u64, replay: Option<String>) -> Outcome {
             let c = depth_violation(n, &u).map(|(o, e)| Cex { input: r.clone(), observed: o, expected: e });
             return Outcome { cex: c, cases: 1 };
         }
-        let c = run_ops(n, &ops).map(|(o, e)| Cex { input: r.clone(), observed: o, expected: e });
+        let c = (run_ops(n, &ops, true).or_else(|| run_ops(n, &ops, false))).map(|(o, e)| Cex { input: r.clone(), observed: o, expected: e });
         return Outcome { cex: c, cases: 1 };
     }
     let mut cases = 0;
@@ -130,7 +135,7 @@ pub fn run(seed: u64, replay: Option<String>) -> Outcome {
                 ops.push(('u', a, b));
             }
             cases += 1;
-            if let Some((o, e)) = run_ops(n, &ops) {
+            if let Some((o, e)) = run_ops(n, &ops, true).or_else(|| run_ops(n, &ops, false)) {
                 return Outcome { cex: Some(Cex { input: enc(n, &ops), observed: o, expected: e }), cases };
             }
         }
@@ -150,8 +155,31 @@ pub fn run(seed: u64, replay: Option<String>) -> Outcome {
             }
         }
         cases += 1;
-        if let Some((o, e)) = run_ops(n, &ops) {
+        if let Some((o, e)) = run_ops(n, &ops, true).or_else(|| run_ops(n, &ops, false)) {
             return Outcome { cex: Some(Cex { input: enc(n, &ops), observed: o, expected: e }), cases };
+        }
+    }
+    // binomial trees built by unions of representatives (deep forests), observed only at the end
+    for k in 1..=5usize {
+        let n = 1 << k;
+        for variant in 0..4 {
+            let mut ops: Vec<(char, usize, usize)> = Vec::new();
+            let mut step = 1;
+            while step < n {
+                let mut i = 0;
+                while i + step < n {
+                    let (a, b) = if variant % 2 == 0 { (i, i + step) } else { (i + step, i) };
+                    // variant >= 2: name the components through their last element instead of the first
+                    let (a, b) = if variant >= 2 { (a + step - 1, b + step - 1) } else { (a, b) };
+                    ops.push(('u', a.min(n - 1), b.min(n - 1)));
+                    i += 2 * step;
+                }
+                step *= 2;
+            }
+            cases += 1;
+            if let Some((o, e)) = run_ops(n, &ops, false) {
+                return Outcome { cex: Some(Cex { input: enc(n, &ops), observed: o, expected: e }), cases };
+            }
         }
     }
     for _ in 0..400 {
